@@ -29,6 +29,68 @@ from . import c10_shapes as S
 SECTION_BASE = {"code": 0x00000, "text": 0x00000, "data": 0x80000, "bss": 0x90000}
 DATA_W = {"defb": 1, "defw": 2, "defl": 3}
 
+# ---- assembler CONFIGURATION (round 5).  `Assembler.SECTION_BASE_ADDRESSES` ("Sane Defaults for Section Base
+# Addresses") and `Assembler.DEFAULT_SECTION` are plain class attributes read through `self`: a program may be
+# assembled by a subclass that overrides them, or by an object on which they were set.  A program dict carries
+#     "asm": None | {"how": "subclass" | "grandchild" | "instance", "bases": {section: base} | None,
+#                    "default": "code" | "data" | None}
+# (None / absent = plain `Assembler()`); the layout model starts from the overridden map / section.
+CONFIG_HOWS = ["subclass", "grandchild", "instance"]
+HOW_TEXT = {"subclass": "class attribute of a subclass", "grandchild": "class attribute inherited from a subclass",
+            "instance": "attribute set on the object"}
+RAW_WS = "\t\x0b\x0c"  # raw (unescaped) white-space control characters a string literal may contain
+
+
+def config_of(prog: Optional[Dict[str, Any]]) -> Optional[Dict[str, Any]]:
+    cfg = (prog or {}).get("asm")
+    return cfg if cfg and (cfg.get("bases") or cfg.get("default")) else None
+
+
+def bases_of(prog: Optional[Dict[str, Any]]) -> Dict[str, int]:
+    cfg = config_of(prog)
+    out = dict(SECTION_BASE)
+    if cfg and cfg.get("bases"):
+        out.update({str(k): int(v) for k, v in cfg["bases"].items()})
+    return out
+
+
+def default_section_of(prog: Optional[Dict[str, Any]]) -> str:
+    cfg = config_of(prog)
+    return str(cfg["default"]) if cfg and cfg.get("default") else "code"
+
+
+def config_class(cfg: Optional[Dict[str, Any]]) -> str:
+    if not cfg:
+        return "plain Assembler()"
+    what = " and ".join(w for w, on in (("SECTION_BASE_ADDRESSES", cfg.get("bases")),
+                                        ("DEFAULT_SECTION", cfg.get("default"))) if on)
+    return f"{what} overridden ({HOW_TEXT[cfg['how']]})"
+
+
+def make_assembler(cfg: Optional[Dict[str, Any]] = None) -> Any:
+    """A new assembler object with the given configuration (None: plain `Assembler()`)."""
+    from sc62015.pysc62015.sc_asm import Assembler
+
+    if not cfg or not (cfg.get("bases") or cfg.get("default")):
+        return Assembler()
+    ns: Dict[str, Any] = {}
+    if cfg.get("bases"):
+        full = dict(SECTION_BASE)
+        full.update({str(k): int(v) for k, v in cfg["bases"].items()})
+        ns["SECTION_BASE_ADDRESSES"] = full
+    if cfg.get("default"):
+        ns["DEFAULT_SECTION"] = str(cfg["default"])
+    how = cfg.get("how", "subclass")
+    if how == "instance":
+        obj = Assembler()
+        for k, v in ns.items():
+            setattr(obj, k, v)
+        return obj
+    klass = type("BoardAssembler", (Assembler,), dict(ns))
+    if how == "grandchild":
+        klass = type("BoardVariantAssembler", (klass,), {})
+    return klass()
+
 _SHAPES: Dict[str, Dict[str, Any]] = {}
 _STANDALONE: Dict[Tuple[str, Optional[int]], Tuple[Optional[bytes], Optional[str]]] = {}
 
@@ -155,7 +217,13 @@ def stmt_class(stmt: Optional[Dict[str, Any]]) -> str:
         return ".ORG symbol" if "sym" in stmt else ".ORG"
     if t == "section":
         return "SECTION " + stmt["name"]
+    if t == "defm" and has_raw_ws(stmt["s"]):
+        return "defm (string with a raw TAB / white-space control character)"
     return t
+
+
+def has_raw_ws(text: str) -> bool:
+    return any(c in RAW_WS for c in text)
 
 
 def prev_class(stmt: Optional[Dict[str, Any]]) -> str:
@@ -185,8 +253,10 @@ def defm_bytes(text: str) -> bytes:
     documentation does not say whether they are decoded, so the reference is what assembling the statement ALONE
     emits (the property's own standalone-equivalence clause); what is then asserted in a program is that the first
     pass reserves exactly that many bytes and the second pass emits exactly those bytes."""
-    if "\\" not in text:
+    if "\\" not in text and not has_raw_ws(text):
         return text.encode("ascii")
+    # raw TAB / VT / FF inside the quotes: the reference is likewise the statement assembled ALONE (at column 0);
+    # in a program the statement stands at other columns (indentation, label on the same line)
     data, _err = standalone('defm "' + text + '"', None)
     return data if data is not None else text.encode("ascii")
 
@@ -198,9 +268,9 @@ def layout(prog: Dict[str, Any]) -> Dict[str, Any]:
     labels: name(upper) -> {"value", "idx", "bss_rel", "prev": what lies between the previous label of the same
             section and this one (the candidates for a wrong size), "section", "pre_location": bool}
     """
-    ptr = dict(SECTION_BASE)
+    ptr = bases_of(prog)
     bss_rel = True  # bss labels are asserted relative to the first one until a .ORG fixes the pointer
-    cur = "code"
+    cur = default_section_of(prog)
     events: Dict[str, List[str]] = {k: ["section start"] for k in ptr}
     # owner[section] = index of the numeric .ORG line that positioned the section's current run (None: section base)
     owner: Dict[str, Optional[int]] = {k: None for k in ptr}
@@ -663,10 +733,9 @@ def assemble(asm: Any, src: str) -> Dict[str, Any]:
     return {"ok": True, "segments": segs, "symbols": {str(k): int(v) for k, v in sorted(asm.symbols.items())}}
 
 
-def fresh_assemble(src: str) -> Dict[str, Any]:
-    from sc62015.pysc62015.sc_asm import Assembler
-
-    return assemble(Assembler(), src)
+def fresh_assemble(src: str, cfg: Optional[Dict[str, Any]] = None) -> Dict[str, Any]:
+    """Assemble on a NEW object (plain `Assembler()`, or one carrying the configuration `cfg`)."""
+    return assemble(make_assembler(cfg), src)
 
 
 _NUM = re.compile(r"0x[0-9A-Fa-f]+|\b\d+\b")
@@ -739,17 +808,32 @@ def check_program(prog: Dict[str, Any], stats: Optional[Dict[str, int]] = None) 
     written (a word was split) -> one `parse` fingerprint; (b) the same program with neutral label names passes
     every verdict -> the fingerprint names the spelling class instead of the statement shape."""
     viols = _check_program(prog, stats)
-    classes = sorted({name_class(ln["label"]) for ln in prog["lines"] if ln.get("label")} - {"generated"})
-    if not viols or not (classes or has_mnemonic_like_label(prog)):
+    if not viols:
         return viols
     first = viols[0]
-    why = misread(prog, render_program(prog, split_pairs=True)[0])
-    if why:
-        if stats is not None:
-            stats["word-split"] = stats.get("word-split", 0) + 1
-        return [Violation("parse", WHERE_MISREAD, SYMPTOM_MISREAD, prog,
-                          f"{why}; first consequence: {first.subcheck} / {first.where} / {first.symptom}: "
-                          f"{first.detail}"[:600])]
+    classes = sorted({name_class(ln["label"]) for ln in prog["lines"] if ln.get("label")} - {"generated"})
+    if classes or has_mnemonic_like_label(prog):
+        why = misread(prog, render_program(prog, split_pairs=True)[0])
+        if why:
+            if stats is not None:
+                stats["word-split"] = stats.get("word-split", 0) + 1
+            return [Violation("parse", WHERE_MISREAD, SYMPTOM_MISREAD, prog,
+                              f"{why}; first consequence: {first.subcheck} / {first.where} / {first.symptom}: "
+                              f"{first.detail}"[:600])]
+    cfg = config_of(prog)
+    if cfg and first.symptom != "label takes the address set by the following directive":
+        # The same program under plain `Assembler()` (stock map: another layout, judged by the same model).  Only if
+        # it is still a program of the generated domain, ASSEMBLES there and passes every verdict, the violation is
+        # named after the configuration class instead of the statement shape; otherwise (and for a label in front
+        # of a location directive, whose known misplacement the stock bases can hide) the fingerprint stays.
+        stock = dict(prog, asm=None)
+        st_stats: Dict[str, int] = {}
+        if in_domain(stock) and not _check_program(stock, st_stats) and st_stats.get("assembled"):
+            if stats is not None:
+                stats["configuration-specific"] = stats.get("configuration-specific", 0) + 1
+            return [Violation(first.subcheck, "assembler configuration: " + config_class(cfg), first.symptom, prog,
+                              f"{first.where}: {first.detail}; the same program passes every verdict on a plain "
+                              f"Assembler()"[:600])]
     if classes and not _check_program(with_generated_names(prog)):
         single = [c for c in classes if not _check_program(with_generated_names(prog, [c]))]
         where = "label spelled like: " + (single[0] if single else "several reserved-looking words")
@@ -772,7 +856,9 @@ def _check_program(prog: Dict[str, Any], stats: Optional[Dict[str, int]] = None)
     src, line_of = render_program(prog, split_pairs=True)
     lay = layout(prog)
     cross, ambiguous, cross_lit = near_expectations(prog, lay)
-    res = fresh_assemble(src)
+    cfg = config_of(prog)
+    bss_base = bases_of(prog)["bss"]
+    res = fresh_assemble(src, cfg)
     lines = prog["lines"]
 
     if ambiguous:
@@ -796,7 +882,7 @@ def _check_program(prog: Dict[str, Any], stats: Optional[Dict[str, int]] = None)
             # The rejected program with its near target labels replaced by their values (statement: an instruction
             # behaves like itself "with its symbols replaced by their values") must be rejected as well.
             bump("expect-reject-literal-form")
-            res2 = fresh_assemble(render_program(near_symbols_as_literals(prog, lay), split_pairs=True)[0])
+            res2 = fresh_assemble(render_program(near_symbols_as_literals(prog, lay), split_pairs=True)[0], cfg)
             if res2["ok"]:
                 V("page-rule", "near JP/CALL literal target",
                   "near target on another 64 KiB page accepted once the label is replaced by its value",
@@ -839,8 +925,8 @@ def _check_program(prog: Dict[str, Any], stats: Optional[Dict[str, int]] = None)
         exp = lab["value"]
         if lab["bss_rel"]:
             if bss_anchor is None:
-                bss_anchor = obs_syms[name] - (exp - SECTION_BASE["bss"])
-            exp = bss_anchor + (exp - SECTION_BASE["bss"])
+                bss_anchor = obs_syms[name] - (exp - bss_base)
+            exp = bss_anchor + (exp - bss_base)
         if obs_syms[name] != exp:
             bad_labels.add(name)
             if lab["section"] not in reported_sections:
@@ -877,7 +963,7 @@ def _check_program(prog: Dict[str, Any], stats: Optional[Dict[str, int]] = None)
         cls = stmt_class(stmt)
         if not rec["emits"]:
             if rec["section"] == "bss" and n:
-                base = a if not rec.get("bss_rel") else (bss_anchor or SECTION_BASE["bss"]) + (a - SECTION_BASE["bss"])
+                base = a if not rec.get("bss_rel") else (bss_anchor or bss_base) + (a - bss_base)
                 bss_ranges.append((base, base + n))
             continue
         for k in range(n):
@@ -964,8 +1050,8 @@ def check_pair_variant(prog: Dict[str, Any]) -> List[Violation]:
     src_pair, _ = render_program(prog, split_pairs=False)
     if src_pair == src_split:
         return []
-    r1 = fresh_assemble(src_split)
-    r2 = fresh_assemble(src_pair)
+    r1 = fresh_assemble(src_split, config_of(prog))
+    r2 = fresh_assemble(src_pair, config_of(prog))
     if r1 != r2 and r1["ok"]:
         if not r2["ok"] and r2["error"].startswith("Parsing failed"):
             return []  # the grammar of the tree under test does not admit the one-line form: outside the domain
